@@ -818,7 +818,8 @@ def h_commit_file_ops(mode: str):
         st.install(h.reg)
         h.reg.stale_state.add("Transaction")   # _commit_file_ops runs once per attempt on the same object
         misc.install_uuid(h.reg, c)
-        tx = tx_object(h, st)
+        written0, _wc0 = sym_paths(h, "written_file")
+        tx = tx_object(h, st, written=written0)
         base_cur = SOpt(c.fresh_bool("base_cur_none"), SInt(z3.Int("base_current_snapshot_id")))
         base_lsn = h.int("base_last_sequence_number")
         cur_snap = SObj("Snapshot", {"snapshot_id": base_cur.val, "manifest_list": SStr(z3.String("base_manifest_list"))}, label="base-current")
@@ -834,6 +835,7 @@ def h_commit_file_ops(mode: str):
         base = h.obj("TableMetadata", label="base", current_snapshot_id=base_cur, last_sequence_number=base_lsn,
                      snapshots=TheoryObj("symiter", fields={"mk": mk_snap}))
         g = {"list_reads": [], "man_reads": [], "new_manifests": [], "list_writes": [], "snap_calls": [], "order": [], "final": _acc.new_acc("final_manifests")}
+        g["final"].fields["mk_earlier"] = lambda I2: SObj("ManifestFile", {"manifest_path": SStr(I2.ctx.fresh_str("some_manifest_of_the_list")), "partition_spec_id": 0}, label="some-manifest-of-the-new-list")
         w_file = SObj("DataFile", {"file_path": SStr(z3.String("witness_file_path"))}, label="witness-file")
         w_in_manifest = z3.Bool("witness_file_in_manifest")
         cur = {}
@@ -884,7 +886,9 @@ def h_commit_file_ops(mode: str):
         def create_list(I, fv, args, kwargs):
             g["list_writes"].append({"args": args[1:], "kw": dict(kwargs)})
             g["order"].append("list")
-            return SStr(I.ctx.fresh_str("new_list_path"))
+            lp = SStr(I.ctx.fresh_str("new_list_path"))
+            g.setdefault("new_list_paths", []).append(lp)
+            return lp
         h.reg.contracts[f"{FMOD}:FileManager.create_manifest_list_file"] = create_list
         h.reg.contracts[f"{FMOD}:FileManager.validate_data_files"] = lambda I, fv, a, k: g["order"].append("validate") or True
 
@@ -976,6 +980,19 @@ def h_commit_file_ops(mode: str):
         if len(g["snap_calls"]) != 1:
             return
         kw = g["snap_calls"][0]
+        # OWN-REGISTER: whatever this commit adds to the transaction's list of files to delete on rollback is a file THIS attempt
+        # created (a new manifest or the new list) - never a manifest carried over from the base, which earlier snapshots share
+        reg_now = list(written0.fields.get("appended", [])) if tx.fields.get("_written_files") is written0 else None
+        own_paths = [pyops.str_z(nm["obj"].fields["manifest_path"]) for nm in g["new_manifests"]] + \
+                    [pyops.str_z(x) for x in g.get("new_list_paths", [])]
+        if reg_now is None:
+            h.fail("OWN-REGISTER:the-transaction's-written-file-list-is-only-appended-to")
+        else:
+            for item in reg_now:
+                iz = pyops.str_z(item) if pyops.is_strlike(item) else None
+                h.ensure("OWN-REGISTER:only-files-created-by-this-attempt-are-registered-for-deletion-on-rollback",
+                         z3.Or(*[z3.Or(iz == o, z3.Concat(z3.StringVal("/"), iz) == o, iz == z3.Concat(z3.StringVal("/"), o)) for o in own_paths]) if (iz is not None and own_paths) else z3.BoolVal(False),
+                         detail="a carried-over manifest is shared with every earlier snapshot: deleting it on rollback makes them unreadable")
         # COUNT-RECORD: the new snapshot records how many manifests its list holds (readers and GC check the list against it)
         summ = kw.get("summary")
         listed = g["list_writes"][0]["args"][0] if g["list_writes"] else None      # the very list handed to create_manifest_list_file
